@@ -768,6 +768,8 @@ def fire(choice):
             W.events.remove(choice.ref)
             rec['meta'] = {k: v for k, v in choice.ref.meta.items()
                            if isinstance(v, (str, int, bool, type(None)))}
+            if isinstance(choice.ref.meta.get('kwargs'), dict):
+                rec['kw'] = _summ(choice.ref.meta['kwargs'])
             choice.ref.thunk()
     except HarnessError:
         raise
